@@ -449,6 +449,42 @@ Definition git_domainb (c : commit) : bool :=
 (** The two classes on which the Git backend is known to violate the property. *)
 Definition known_classb (c : commit) : bool := placeholder_nameb c || padded_nameb c.
 
+(** Everything write_commit checks before the collision loop. *)
+Definition acceptedb (root : bytes) (c : commit) : bool :=
+  forallb (len_ok (length root)) (c_root_tree c)
+  && i32_ok (s_tz (c_author c) * 60) && i32_ok (s_tz (c_committer c) * 60)
+  && negb (is_nil_b (c_parents c))
+  && negb (existsb (bytes_eqb root) (c_parents c) && negb (is_resolved (c_parents c)))
+  && forallb (len_ok (length root)) (c_parents c)
+  && negb (negb (is_resolved (c_labels c)) && existsb (has_byte 10) (c_labels c))
+  && match gix_sig_check (signature_to_git (c_author c)),
+           gix_sig_check (signature_to_git (c_committer c)) with
+     | None, None => true
+     | _, _ => false
+     end.
+(** Second-precision form of a commit: what the Git backend records. *)
+Definition normalize (c : commit) : commit :=
+  with_times c (s_millis (c_author c) / 1000 * 1000) (s_millis (c_committer c) / 1000 * 1000).
+(** Byte-range well-formedness of the tree ids (always true of Rust bytes). *)
+Definition trees_wfb (c : commit) : bool := forallb bytes_okb (c_root_tree c).
+(** The part of the encoding jj owns: the Git commit handed to gix and the extras. *)
+Definition encoding (root : bytes) (c : commit) : git_commit * extras :=
+  (to_git root c, serialize_extras c).
+
+(** Domain of the ContentHash encoding: bytes below 256, lengths below 2^64, timestamps
+    within i64 / i32 (always true of Rust values). *)
+Definition len64b {A} (l : list A) : bool := N.of_nat (length l) <? 2 ^ 64.
+Definition b_wfb (b : bytes) : bool := forallb byteb b && len64b b.
+Definition lb_wfb (l : list bytes) : bool := forallb b_wfb l && len64b l.
+Definition sig_wfb (s : sig) : bool :=
+  b_wfb (s_name s) && b_wfb (s_email s)
+  && ((- 2 ^ 63 <=? s_millis s) && (s_millis s <? 2 ^ 63)
+      && (- 2 ^ 31 <=? s_tz s) && (s_tz s <? 2 ^ 31))%Z.
+Definition commit_enc_wfb (c : commit) : bool :=
+  lb_wfb (c_parents c) && lb_wfb (c_predecessors c) && lb_wfb (c_root_tree c)
+  && lb_wfb (c_labels c) && b_wfb (c_change_id c) && b_wfb (c_description c)
+  && sig_wfb (c_author c) && sig_wfb (c_committer c).
+
 (** * Boolean equalities *)
 Definition sig_eqb (a b : sig) : bool :=
   bytes_eqb (s_name a) (s_name b) && bytes_eqb (s_email a) (s_email b)
@@ -584,3 +620,38 @@ Definition check_case (c : case) : N :=
       && reads_git (k_root c) [] (final_table (k_root c) [] (k_steps c)) (k_steps c)
     else forallb step_simple (k_steps c) && k_ids_are_hashes c in
   verdict corr (okb c) (corr && known c) (if k_git c then 1 else 2).
+
+(** * Further definitions used in the statements of Props/C17.v *)
+(** No F2 / F6 name: the guard of the Git theorems. *)
+Definition names_okb (c : commit) : bool := negb (placeholder_nameb c) && negb (padded_nameb c).
+
+(** [later root t1 t2]: [t2] is reached from [t1] by any number of writes. *)
+Inductive later (root : bytes) : table -> table -> Prop :=
+| later_refl t : later root t t
+| later_step t1 t2 c w t3 : later root t1 t2 -> write root t2 c = (w, t3) -> later root t1 t3.
+
+(** Witness commits for the refutation lemmas. *)
+Definition w_root : bytes := repeat 0 20.
+Definition w_tree : bytes := repeat 1 20.
+Definition w_commit (author_name : bytes) (author_millis : Z) : commit :=
+  mk_commit [w_root] [] [w_tree] [[]] (repeat 7 16) [102]
+            (mk_sig author_name [97; 64; 120] author_millis 0)
+            (mk_sig [65] [97; 64; 120] 2000456 60).
+
+
+(** * What the checker means *)
+Definition step_ok (git : bool) (s : step) : Prop :=
+  match st_out s with
+  | IOk _ returned =>
+      st_cached s = true /\ (domainb git (st_in s) = true -> st_read s = ROk returned)
+  | _ => True
+  end.
+Definition pair_ok (git : bool) (s1 s2 : step) : Prop :=
+  match st_out s1, st_out s2 with
+  | IOk i1 r1, IOk i2 r2 =>
+      domainb git (st_in s1) = true -> domainb git (st_in s2) = true -> (i1 = i2 <-> r1 = r2)
+  | _, _ => True
+  end.
+Definition case_ok (c : case) : Prop :=
+  (forall s, In s (k_steps c) -> step_ok (k_git c) s)
+  /\ (forall s1 s2, In s1 (k_steps c) -> In s2 (k_steps c) -> pair_ok (k_git c) s1 s2).
